@@ -467,6 +467,15 @@ Definition cclassify (c : N) : ckind :=
 Definition depth_incr (D : dopts) (depth : Z) : res Z :=
   if (maxdepth D <=? depth + 1)%Z then Err EDepth else Ok (depth + 1)%Z.
 
+(* default branch up to the loops: length field, class check (after the length was read), ext tag *)
+Definition skip_head (c : N) (lw : N) (z : rd) : res (ckind * N * rd) :=
+  do (len, z1) <- skip_len lw z ;;
+  match cclassify c with
+  | CNone => Err EBadDesc
+  | CExt => do (_, z2) <- rd_readn1 z1 ;; Ok (CExt, len, z2)
+  | ck => Ok (ck, len, z1)
+  end.
+
 Fixpoint skipv (D : dopts) (fuel : nat) (depth : Z) (lvl : nat) (c : N) (z : rd) {struct fuel} : res rd * nat :=
   match fuel with
   | O => (OutOfFuel, lvl)
@@ -477,29 +486,21 @@ Fixpoint skipv (D : dopts) (fuel : nat) (depth : Z) (lvl : nat) (c : N) (z : rd)
     | SSkip n => (rd_skip n z, lvl)
     | STime => ((do (n, z1) <- rd_readn1 z ;; rd_skip n z1), lvl)
     | SLen lw =>
-      match skip_len lw z with
+      match skip_head c lw z with
       | Err e => (Err e, lvl) | OutOfFuel => (OutOfFuel, lvl)
-      | Ok (len, z1) =>
-        match cclassify c with
-        | CNone => (Err EBadDesc, lvl)
-        | ck =>
-          match (match ck with CExt => (do (_, z2) <- rd_readn1 z1 ;; Ok z2) | _ => Ok z1 end) with
-          | Err e => (Err e, lvl) | OutOfFuel => (OutOfFuel, lvl)
-          | Ok z2 =>
-            if len =? 0 then (Ok z2, lvl)
-            else match ck with
-                 | CArr => match depth_incr D depth with
-                           | Ok d' => skip_elems D f d' lvl len z2
-                           | Err e => (Err e, lvl) | OutOfFuel => (OutOfFuel, lvl)
-                           end
-                 | CMap => match depth_incr D depth with
-                           | Ok d' => skip_elems D f d' lvl (2 * len) z2
-                           | Err e => (Err e, lvl) | OutOfFuel => (OutOfFuel, lvl)
-                           end
-                 | _ => (rd_skip len z2, lvl)
-                 end
-          end
-        end
+      | Ok (ck, len, z2) =>
+        if len =? 0 then (Ok z2, lvl)
+        else match ck with
+             | CArr => match depth_incr D depth with
+                       | Ok d' => skip_elems D f d' lvl len z2
+                       | Err e => (Err e, lvl) | OutOfFuel => (OutOfFuel, lvl)
+                       end
+             | CMap => match depth_incr D depth with
+                       | Ok d' => skip_elems D f d' lvl (2 * len) z2
+                       | Err e => (Err e, lvl) | OutOfFuel => (OutOfFuel, lvl)
+                       end
+             | _ => (rd_skip len z2, lvl)
+             end
       end
     end
   end
